@@ -1,5 +1,30 @@
-(* C05 property theorems (placeholder until the scheduler development lands). *)
-From DD Require Import Model.SchedHier.
-Theorem init_not_finished : forall (input : Type) (i : input), finished input (init input i) = false.
-Proof. reflexivity. Qed.
-Print Assumptions init_not_finished.
+(* C05: accepted inputs form a chain; stale parallel results are never adopted.
+   The theorems are about every path (every interleaving of producer, workers
+   and result consumption, any number of workers) of Model/SchedHier.v; they are
+   restated here from Props/SchedHierProps.v (proofs in Proofs/Sched/). *)
+From DD Require Import Model.SchedHier Props.SchedHierProps.
+
+(* a result is adopted only if it was computed against the current input and accepted *)
+Theorem c05_no_stale : ltac:(let t := type of no_stale in exact t).
+Proof. exact no_stale. Qed.
+Print Assumptions c05_no_stale.
+
+(* the write history is a chain of single accepted derivations from the initial input *)
+Theorem c05_chain : ltac:(let t := type of chain in exact t).
+Proof. exact chain. Qed.
+Print Assumptions c05_chain.
+
+(* every written content was tested and accepted before it was written *)
+Theorem c05_written_was_checked : ltac:(let t := type of written_was_checked in exact t).
+Proof. exact written_was_checked. Qed.
+Print Assumptions c05_written_was_checked.
+
+Theorem c05_checked_sound : ltac:(let t := type of checked_sound in exact t).
+Proof. exact checked_sound. Qed.
+Print Assumptions c05_checked_sound.
+
+(* the current input (= the file) is the last element of the chain *)
+Theorem c05_file_is_last : ltac:(let t := type of file_is_last in exact t).
+Proof. exact file_is_last. Qed.
+Print Assumptions c05_file_is_last.
+About no_stale. About chain. About file_is_last.
